@@ -42,7 +42,9 @@ pub enum DissemKind {
 #[derive(Clone, Debug)]
 pub enum FaultEvent {
     Partition { at_ms: u64, heal_ms: u64, group: Vec<u8> },
-    Crash { at_ms: u64, node: usize },
+    /// `mid`: instead of crashing at `at_ms`, crash in the middle of the node's next broadcast of
+    /// the given message class (0 = vote, 1 = certificate, 2 = shred) after that many sends of it.
+    Crash { at_ms: u64, node: usize, mid: Option<(u8, u32)> },
     Stall { at_ms: u64, node: usize, ms: u64 },
     Restart { at_ms: u64, node: usize },
 }
@@ -268,7 +270,13 @@ pub fn draw_cfg(p: &Profile) -> ClusterCfg {
                 }
                 crashed_stake += stakes[i];
                 cnt += 1;
-                faults.push(FaultEvent::Crash { at_ms: kernel::choose(CFG, fault_window.max(1)), node: i });
+                let at_ms = kernel::choose(CFG, fault_window.max(1));
+                // some crashes land inside a broadcast: only the first few recipients get the message
+                let mid = match kernel::choose(CFG, 3) {
+                    1 => Some((kernel::choose(CFG, 3) as u8, kernel::choose(CFG, n as u64) as u32)),
+                    _ => None,
+                };
+                faults.push(FaultEvent::Crash { at_ms, node: i, mid });
             }
         }
         for &i in &amnesiacs {
@@ -390,7 +398,7 @@ async fn fault_scheduler(
     enum Act {
         Part(Vec<u8>),
         Heal,
-        Crash(usize),
+        Crash(usize, Option<(u8, u32)>),
         Stall(usize, u64),
         Restart(usize),
     }
@@ -402,7 +410,7 @@ async fn fault_scheduler(
                 acts.push((at_ms, k, Act::Part(group)));
                 acts.push((heal_ms, k, Act::Heal));
             }
-            FaultEvent::Crash { at_ms, node } => acts.push((at_ms, k, Act::Crash(node))),
+            FaultEvent::Crash { at_ms, node, mid } => acts.push((at_ms, k, Act::Crash(node, mid))),
             FaultEvent::Stall { at_ms, node, ms } => acts.push((at_ms, k, Act::Stall(node, ms))),
             FaultEvent::Restart { at_ms, node } => acts.push((at_ms, k, Act::Restart(node))),
         }
@@ -416,11 +424,36 @@ async fn fault_scheduler(
         match act {
             Act::Part(g) => net.lock().unwrap().set_partition(g),
             Act::Heal => net.lock().unwrap().heal(),
-            Act::Crash(i) => {
+            Act::Crash(i, None) => {
                 net.lock().unwrap().crash(i);
                 if let Some(c) = &cancels[i] {
                     c.cancel();
                 }
+            }
+            Act::Crash(i, Some((class, after))) => {
+                // armed: the transport crashes the node in the middle of its next broadcast of that
+                // class; the node's tasks are cancelled as soon as that happened (or after 3 s without
+                // such a broadcast, when it crashes anyway)
+                net.lock().unwrap().arm_crash(i, class, after);
+                let net2 = net.clone();
+                let cancel = cancels[i].clone();
+                tokio::spawn(async move {
+                    for _ in 0..600 {
+                        tokio::time::sleep(Duration::from_millis(5)).await;
+                        if net2.lock().unwrap().crashed[i] {
+                            break;
+                        }
+                    }
+                    {
+                        let mut c = net2.lock().unwrap();
+                        if !c.crashed[i] {
+                            c.crash(i);
+                        }
+                    }
+                    if let Some(c) = cancel {
+                        c.cancel();
+                    }
+                });
             }
             Act::Stall(i, ms) => {
                 if ms > 0 {
@@ -546,7 +579,7 @@ async fn run_async(profile: &Profile, cfg: ClusterCfg) -> ClusterOutcome {
     let mut timeline: Vec<(u64, Vec<u64>)> = Vec::new();
     let step = 100u64;
     let crashed_at: Vec<Option<u64>> = (0..n)
-        .map(|i| cfg.faults.iter().find_map(|f| match f { FaultEvent::Crash { at_ms, node } if *node == i => Some(*at_ms), _ => None }))
+        .map(|i| cfg.faults.iter().find_map(|f| match f { FaultEvent::Crash { at_ms, node, .. } if *node == i => Some(*at_ms), _ => None }))
         .collect();
 
     let duration = cfg.duration_ms;
